@@ -29,7 +29,9 @@ import (
 	"time"
 
 	"github.com/youzan/ZanRedisDB/common"
+	"github.com/youzan/ZanRedisDB/metric"
 	"github.com/youzan/ZanRedisDB/node"
+	"github.com/youzan/ZanRedisDB/pkg/wait"
 	"github.com/youzan/ZanRedisDB/rockredis"
 	"github.com/youzan/ZanRedisDB/server"
 	"github.com/youzan/ZanRedisDB/syncerpb"
@@ -127,6 +129,18 @@ func syToken(i, pad int) string {
 
 // entry builds source entry i (1-based) as the syncer would ship it.
 func (d *syDrv) entry(i int, corrupt bool) syncerpb.RaftLogData {
+	rl := d.reqList(i)
+	data, _ := rl.Marshal()
+	ts := rl.Timestamp
+	if corrupt {
+		ts++ // the receiver refuses an entry whose raft timestamp does not match its payload
+	}
+	return syncerpb.RaftLogData{Type: syncerpb.EntryNormalRaw, ClusterName: syCluster, RaftGroupName: "default-0",
+		Term: d.terms[i-1], Index: uint64(i), RaftTimestamp: ts, Data: data}
+}
+
+// reqList: source entry i as it stands in the source cluster's raft log.
+func (d *syDrv) reqList(i int) node.BatchInternalRaftRequest {
 	var args [][]byte
 	switch d.kinds[i-1] {
 	case "incr":
@@ -148,13 +162,69 @@ func (d *syDrv) entry(i int, corrupt bool) syncerpb.RaftLogData {
 	rl.OrigCluster = syCluster
 	rl.Reqs = append(rl.Reqs, node.InternalRaftRequest{
 		Header: node.RequestHeader{ID: uint64(100000 + i), DataType: 0, Timestamp: rl.Timestamp}, Data: cmd.Raw})
-	data, _ := rl.Marshal()
-	ts := rl.Timestamp
-	if corrupt {
-		ts++ // the receiver refuses an entry whose raft timestamp does not match its payload
+	return rl
+}
+
+// ------------------------------------------------------------------ the real sender
+
+type syClusterInfo struct{}
+
+func (syClusterInfo) GetClusterName() string { return syCluster }
+func (syClusterInfo) GetSnapshotSyncInfo(string) ([]common.SnapshotSyncInfo, error) {
+	return nil, nil
+}
+func (syClusterInfo) UpdateMeForNamespaceLeader(string) (bool, error) { return true, nil }
+
+// senderRound: a (re)started log syncer of the source cluster - the real logSyncerSM with its
+// send loop and gRPC sender, pointed at the receiver's gRPC port.  Its raft replays entries j..m
+// (j at or below the destination's synced position after a sender restart, m above it) into the
+// state machine before the send loop runs, so they are buffered as ONE batch that overlaps the
+// destination's position.  Every entry above that position has to arrive.
+func (d *syDrv) senderRound() {
+	k := d.synced()
+	if k+12 > d.n || d.multi != nil {
+		return
 	}
-	return syncerpb.RaftLogData{Type: syncerpb.EntryNormalRaw, ClusterName: syCluster, RaftGroupName: "default-0",
-		Term: d.terms[i-1], Index: uint64(i), RaftTimestamp: ts, Data: data}
+	j := clampInt(k+1-d.rng.Intn(7), 1, k+1)
+	m := k + 1 + d.rng.Intn(8)
+	sm, err := node.NewStateMachine(&node.KVOptions{}, node.MachineConfig{LearnerRole: common.LearnerRoleLogSyncer,
+		RemoteSyncCluster: "test://127.0.0.1:" + strconv.Itoa(d.cs.grpc)}, 1, "default-0", syClusterInfo{}, wait.New(), nil)
+	if err != nil {
+		return
+	}
+	stop := make(chan struct{})
+	var batch []int
+	for i := j; i <= m; i++ {
+		batch = append(batch, i)
+		sm.ApplyRaftRequest(false, nil, d.reqList(i), d.terms[i-1], uint64(i), stop)
+	}
+	d.emit(trace.M{"ev": "send", "batch": batch})
+	sm.Start()
+	// until the sender itself says that everything up to m is at the destination
+	said := false
+	if st, ok := sm.(interface {
+		GetLogSyncStats() (metric.LogSyncStats, metric.LogSyncStats)
+	}); ok {
+		for w := 0; w < 250 && !said; w++ {
+			_, synced := st.GetLogSyncStats()
+			said = synced.Index >= uint64(m)
+			if !said {
+				time.Sleep(20 * time.Millisecond)
+			}
+		}
+	}
+	sm.Close()
+	code, msg := 0, ""
+	if !said {
+		code, msg = 1, "the sender did not report the batch as synced in time"
+	}
+	d.emit(trace.M{"ev": "deliver", "batch": batch, "bad": 0, "code": code, "msg": msg, "via": "logSyncerSM"})
+	d.count("deliveries")
+	d.count("deliveries_by_real_sender")
+	if j <= k {
+		d.count("sender_batches_overlapping_destination_position")
+	}
+	d.obs("deliver")
 }
 
 // recvServer: the server deliveries go to (multi-replica: the current leader).
@@ -721,8 +791,10 @@ func (d *syDrv) randomSequence(steps int) error {
 			}
 			d.deliver(b, 0)
 			lastBatch = b
-		case c < 89:
+		case c < 86:
 			d.forceSnapshot()
+		case c < 89:
+			d.senderRound()
 		case c < 93:
 			// one kind of remote snapshot per receiver (a failed one blocks later ones for minutes)
 			if d.nseg%2 == 0 {
